@@ -169,7 +169,7 @@ def cause_of(p, v):
     """Independent facts about a verdict, used to keep known-finding matches narrow."""
     c = {}
     exp, act = v.get("expected"), v.get("actual")
-    if v["class"] == "past_first_line_boundary" and isinstance(exp, list) and exp and isinstance(act, int):
+    if v["class"] in ("past_first_line_boundary", "inside_callee_past_boundary") and isinstance(exp, list) and exp and isinstance(act, int):
         u = max(exp)
         if 1 <= u <= len(p.X):
             x = p.X[u - 1]
